@@ -57,8 +57,54 @@ def main():
         if nok:
             okp = [p for p in paths if p.ok][0]
             ck.expect_sat('C20.mgr.cover', okp, True)
+    distributor(ck)
+    try:
+        import c20_collector
+        c20_collector.run(ck)
+    except ImportError:
+        ck.outside.append('collector echo part not built')
     ck.bounds.update(hooks='0..3 registered hooks (symbolic addresses)', widths='all times/ids/durations full u64')
     return ck.finish()
+
+
+def distributor(ck):
+    sys.path.insert(0, os.path.dirname(os.path.abspath(__file__)))
+    import lib_dist as LD
+    prog = ck.program('fee_distributor', 'white_whale_std')
+    for genesis in (False, True):
+        def body(it, genesis=genesis):
+            c = it.ctx
+            st = LD.setup_dist(it, 0 if genesis else 2, 1, cursor='some')
+            it.extra = dict(st=st)
+            sender = ADDR(Str(None, sym=c.sym('sender')))
+            return enter(it, 'fee_distributor', 'execute', mk_env(it, c.sym('now', 64)), mk_info(sender), it.mkv(LD.FX, 'NewEpoch'))
+        tag = 'dist.new_epoch.' + ('genesis' if genesis else 'next')
+        n = 0
+        now = z3.Int('now')
+        for p in ck.explore(prog, body, tag):
+            ck.sample(dict(entry='fee_distributor.execute(new_epoch)', genesis=genesis, outcome=p.short()))
+            st = p.extra['st']; dur, gen = st['dur'], st['gen']
+            cur_id, cur_start = (0, 0) if genesis else (st['eps'][-1]['id'], st['eps'][-1]['start'])
+            if p.ok:
+                n += 1
+                subs = messages(resp_of(p)); calls = wasm_execs(resp_of(p))
+                shape = len(subs) == 1 and len(calls) == 1 and same(sname(calls[0][0]), LD.COLLECTOR) and isinstance(calls[0][1], Enum) and calls[0][1].variant == 'ForwardFees' \
+                    and subs[0][0].fields[3].variant == 'Success' and subs[0][0].fields[0] == 1 and len(calls[0][2]) == 0
+                ck.oblige('C20.dist.step.shape.' + tag, p, not shape, 'exactly one ForwardFees submessage to the collector, reply on success')
+                if shape:
+                    ep = calls[0][1].fields[0]
+                    nid = ep.fields[0].fields[0]; nstart = ep.fields[1].fields[0].fields[0]
+                    ck.oblige('C20.dist.step.id.' + tag, p, nid != cur_id + 1, 'id advances by exactly one')
+                    ck.oblige('C20.dist.step.start.' + tag, p, nstart != (gen if genesis else cur_start + dur), 'start = previous start + duration (genesis time for the first epoch)')
+                    ck.oblige('C20.dist.step.empty_ledgers.' + tag, p, len(ep.fields[2].items) + len(ep.fields[3].items) + len(ep.fields[4].items) != 0, 'the new epoch starts with empty ledgers')
+                ck.oblige('C20.dist.step.not_early.' + tag, p, z3.Or(now - cur_start < dur, z3.And(genesis, now < gen)) if genesis else now - cur_start < dur, 'accepted only after the full duration (and not before genesis)')
+                ck.oblige('C20.dist.step.no_write.' + tag, p, len(p.world.writes) != 0, 'the epoch is only stored by the reply, after the collector answered')
+                ck.oblige('C20.dist.permissionless.' + tag, p, any('sender' in str(cnd) for cnd in p.conds), 'no Ok path condition mentions the sender')
+            elif p.err:
+                ck.oblige('C20.dist.early.no_write.' + tag, p, len(p.world.writes) != 0, 'a rejected attempt changes nothing')
+                ck.oblige('C20.dist.early.' + tag, p, z3.And(now >= cur_start, now - cur_start >= dur, z3.Or(not genesis, now >= gen), cur_id + 1 < 2**64,
+                                                            True if genesis else cur_start + dur < 2**64), 'rejected only when early, before genesis or on overflow')
+        ck.require(n >= 1, tag + ': no Ok path')
 
 
 if __name__ == '__main__':
